@@ -10,6 +10,7 @@
   * `frame rb sb ht` is the byte string `30 (|rb|+|sb|+4) 02 |rb| rb 02 |sb| sb ht`.
   All statements quantify over ALL byte strings / integers; there is no size bound anywhere.
 -/
+import BtcVerif.Props.GuardPins.P_der
 import BtcVerif.Proofs.DEREnc
 
 namespace BtcVerif.Props.C11
